@@ -31,7 +31,7 @@ theorem quoteMeta_exact_partial (m : Mode) (s t : Str) (he : m.entire = true)
   unfold globMatch parseGlob
   rw [parseSeq_quoteMeta m s _ 0 (Nat.lt_succ_of_le (quoteMeta_length_ge s)) hx]
   simp only [he, if_true]
-  rw [gmatch_full_iff, GDen_litSeq]
+  rw [gmatch_full_iff, GDen_litSeq m s 0 true t (fun _ => .inl rfl)]
 
 /-- Without case folding: QuoteMeta(s) matches exactly s. -/
 theorem quoteMeta_exact_partial_eq (m : Mode) (s t : Str) (he : m.entire = true)
@@ -52,7 +52,7 @@ theorem hasMeta_single_partial (m : Mode) (p t : Str) (he : m.entire = true)
   rcases parseSeq_noMeta m (p.length + 1) false 0 p (Nat.lt_succ_self _) hm hx with hp | ⟨e, hp⟩
   · rw [hp] at h
     simp only [he, if_true] at h
-    rw [gmatch_full_iff, GDen_litSeq] at h
+    rw [gmatch_full_iff, GDen_litSeq m (unescape p) 0 true t (fun _ => .inl rfl)] at h
     exact h
   · rw [hp] at h
     cases h
